@@ -72,8 +72,8 @@ theorem C16_token_opx (a b : UInt8) (h l : Nat) (ha : hexDigitVal a = some h) (h
     simp [parseOpCode, ha, hb]
   have hp2 : parseOpCode [120, a, b] = some (h * 16 + l) := by
     simp [parseOpCode, ha, hb]
-  have hn1 : cAtoi 32 [79, 80, 95, 120, a, b] = 0 := rfl
-  have hn2 : cAtoi 32 [120, a, b] = 0 := rfl
+  have hn1 : cAtoi 64 [79, 80, 95, 120, a, b] = 0 := rfl
+  have hn2 : cAtoi 64 [120, a, b] = 0 := rfl
   have hx1 : tryHex [79, 80, 95, 120, a, b] = none := rfl
   constructor
   · simp [evalToken, hn1, hp1, hx1]
